@@ -483,6 +483,25 @@ def r3(ctx):
 
 
 # ------------------------------------------------------------------------------- R4
+def must_close_writers(ctx, rid="C02.R2"):
+    """Response.must_close is lowered nowhere but in __init__ and raised nowhere but in force_close(): whatever the
+    application does between the worker's force_close() and the head (start_response restarts included) cannot undo it"""
+    repo = ctx.repo
+    n = 0
+    for f in repo.cls(RESP).methods.values():
+        for x in walk_own(f.node):
+            if isinstance(x, (ast.Assign, ast.AugAssign)):
+                for t in (x.targets if isinstance(x, ast.Assign) else [x.target]):
+                    if isinstance(t, ast.Attribute) and isinstance(t.value, ast.Name) and t.value.id == "self" and t.attr == "must_close":
+                        n += 1
+                        v = const(x.value, NO)
+                        okk = isinstance(x, ast.Assign) and ((f.name == "__init__" and v is False) or (f.name == "force_close" and v is True))
+                        ctx.check(rid, okk, key(f, "must_close-writer|" + norm(x)), site(f, x),
+                                  "Response.must_close is written in %s: a force_close() decision of the worker (max_requests reached, keep-alive queue full, shutting down) can be lost "
+                                  "and the response goes out as keep-alive" % f.name, "must_close only raised by force_close()")
+    ctx.floor(rid, "writers of Response.must_close", n, 2)
+
+
 def late_error(ctx, rid="C02.R4"):
     """an application error after the head went out never produces a second response: the handlers re-raise to handle()
     (which writes an error *reply*) only while `headers_sent` is false, and otherwise shut the connection down"""
